@@ -15,11 +15,18 @@ Viol(m, e, info) == PrintT(<<"VIOL", ToJson([p |-> "C20", m |-> m, line |-> l, b
 Check(c, m, e, info) == IF c THEN TRUE ELSE Viol(m, e, info)
 
 Serializable(e) == \E i \in DOMAIN e.serials : e.serials[i] = e.final
+\* "key indices ... in a state that some serial order could have produced": the next key path of every account is
+\* the one some serial order leaves (in particular it never moves back behind a key an operation was given)
+KeyIndexSerial(e) ==
+  \A w \in DOMAIN e.final.w : \A a \in DOMAIN e.final.w[w].idx :
+     \E i \in DOMAIN e.serials : /\ w \in DOMAIN e.serials[i].w /\ a \in DOMAIN e.serials[i].w[w].idx
+                                 /\ e.serials[i].w[w].idx[a].child = e.final.w[w].idx[a].child
 TConc ==
   /\ l <= Len(Rec) /\ Rec[l].ev = "conc"
   /\ LET e == Rec[l] IN
      /\ Check(~e.hang, "NoDeadlock", e, "")
      /\ (~e.hang) => Check(Serializable(e), "Serializable", e, "")
+     /\ (~e.hang) => Check(KeyIndexSerial(e), "KeyIndexSerial", e, "")
   /\ l' = l + 1
 TOther == l <= Len(Rec) /\ Rec[l].ev # "conc" /\ l' = l + 1
 TSpec == l = 1 /\ [][TConc \/ TOther]_l
